@@ -1,6 +1,7 @@
 package govc
 
 import (
+	"strings"
 	"fmt"
 	"go/token"
 	"go/types"
@@ -200,7 +201,22 @@ func (u *Unit) candidates(fn *ssa.Function, head *ssa.BasicBlock, ord int, mods 
 		switch {
 		case isInteger(pt) && u.W.IntBV:
 			// no integer templates in bit-vector mode
+		case isInteger(pt) && !isCounterCell(c, body):
+			// assigned from something other than itself +/- a constant: no numeric templates
 		case isInteger(pt):
+			// relations between two counters of the loop: c <= d, c <= d+1
+			for cj, d := range cells {
+				d := d
+				if d == c || !isInteger(d.Type().(*types.Pointer).Elem()) || !isCounterCell(d, body) {
+					continue
+				}
+				for _, off := range []int64{0, 1} {
+					off := off
+					out = append(out, &candidate{fmt.Sprintf("%s<=#%d%+d", cid, cj, off), func(s *State, f *Frame, al *ActiveLoop) *Term {
+						return Le(f.Cells[c], Add(f.Cells[d], IntLit(off)))
+					}})
+				}
+			}
 			out = append(out,
 				&candidate{cid + ">=entry", func(s *State, f *Frame, al *ActiveLoop) *Term {
 					return Ge(f.Cells[c], al.Entry.Cells[c])
@@ -252,7 +268,7 @@ func (u *Unit) candidates(fn *ssa.Function, head *ssa.BasicBlock, ord int, mods 
 			// len relation to integer counters: len(c) == i, len(c) <= i
 			for cj, d := range cells {
 				d := d
-				if d == c || !isInteger(d.Type().(*types.Pointer).Elem()) || u.W.IntBV {
+				if d == c || !isInteger(d.Type().(*types.Pointer).Elem()) || u.W.IntBV || !isCounterCell(d, body) {
 					continue
 				}
 				for _, off := range []int64{0, 1} {
@@ -455,8 +471,7 @@ func (u *Unit) enterBlock(s *State, f *Frame) bool {
 			s.assume(u.candEval(c, s, f, al))
 		}
 	}
-	al.Cands = nil
-	u.activeCands[al] = cands
+	al.CandList = cands
 	// variant at head
 	al.Variant = u.variantAt(s, f, al, spec, body)
 	if al.Variant != nil {
@@ -494,7 +509,7 @@ func (u *Unit) checkInvariantsInit(s *State, f *Frame, al *ActiveLoop, spec *Loo
 			name := "cand:" + c.id
 			q := u.oblige(s, name, "cand", pos, "inferred invariant candidate (init)", u.candEval(c, s, f, al))
 			u.Obls[name].Aux = true
-			_ = q
+			stripQuantified(q, c.id)
 		}
 	}
 }
@@ -509,11 +524,12 @@ func (u *Unit) checkInvariants(s *State, f *Frame, al *ActiveLoop, spec *LoopSpe
 			u.oblige(s, name, kind, pos, fmt.Sprintf("loop %d invariant preserved: %s", ord, inv.Text), u.evalBool(env, inv.E))
 		}
 	}
-	for _, c := range u.activeCands[al] {
+	for _, c := range al.CandList {
 		if u.candEnabled(c.id) {
 			name := "cand:" + c.id
-			u.oblige(s, name, "cand", pos, "inferred invariant candidate (preserved)", u.candEval(c, s, f, al))
+			q := u.oblige(s, name, "cand", pos, "inferred invariant candidate (preserved)", u.candEval(c, s, f, al))
 			u.Obls[name].Aux = true
+			stripQuantified(q, c.id)
 		}
 	}
 }
@@ -602,4 +618,48 @@ func (u *Unit) candEval(c *candidate, s *State, f *Frame, al *ActiveLoop) (t *Te
 		}
 	}()
 	return c.eval(s, f, al)
+}
+
+// isCounterCell: every store to c inside the loop is `c = c + k` or `c = c - k` for a constant k.
+func isCounterCell(c *ssa.Alloc, body map[*ssa.BasicBlock]bool) bool {
+	n := 0
+	for b := range body {
+		for _, in := range b.Instrs {
+			st, ok := in.(*ssa.Store)
+			if !ok || st.Addr != c {
+				continue
+			}
+			n++
+			bo, ok := st.Val.(*ssa.BinOp)
+			if !ok || (bo.Op != token.ADD && bo.Op != token.SUB) {
+				return false
+			}
+			ld, ok := bo.X.(*ssa.UnOp)
+			if !ok || ld.Op != token.MUL || ld.X != c {
+				return false
+			}
+			if _, ok := bo.Y.(*ssa.Const); !ok {
+				return false
+			}
+		}
+	}
+	return n > 0
+}
+
+// stripQuantified: numeric and freshness candidates are proved from the quantifier-free part of
+// the path condition only (fewer hypotheses: still sound, and decided in milliseconds instead of
+// timing out under load). Heap-frame candidates keep the full context.
+func stripQuantified(q *Query, id string) {
+	if q == nil || strings.Contains(id, "heap:") {
+		return
+	}
+	var pc []*Term
+	for _, p := range q.PC {
+		ps := p.String()
+		if strings.Contains(ps, "(forall ") || strings.Contains(ps, "(exists ") {
+			continue
+		}
+		pc = append(pc, p)
+	}
+	q.PC = pc
 }
